@@ -33,13 +33,25 @@ CONFIGS = {
                                 kw=dict(fragment_masses={'test': 42, 'frag2': 84}, polymer_reactivities={'$': 0.4, '>': 0.3, '<': 0.3, '$2': 0.2}),
                                 aa=False, sym_mass=True),
     'missing_key': dict(frags='{#A=[$A]CC[$B],#B=[$A]O[$C]}', kw=dict(polymer_reactivities={'$A': 1.0}), aa=True),
+    # a table row that also lists descriptors which are no valid partners (only complements may ever be chosen)
+    'table_with_foreign_keys': dict(frags='{#A=[>]CC[<],#B=[>]C(C)C[<]O}',
+                                    kw=dict(polymer_reactivities={'>': 0.5, '<': 0.5},
+                                            fragment_reactivities={'>': {'<': 0.6, '>': 0.4}, '<': {'>': 0.5, '<': 0.5}}), aa=True),
+    'dollar_orders_table': dict(frags='{#A=[$A]CC[$B]=C,#B=[$A]O[$B]=N}',
+                                kw=dict(polymer_reactivities={'$A': 0.5, '$B2': 0.5},
+                                        fragment_reactivities={'$A': {'$A': 0.5, '$B2': 0.5}, '$B2': {'$B2': 1.0, '$A': 0.2}}), aa=True),
+    # the same terminal descriptor twice on one node
+    'double_terminal': dict(frags='{#M=[<][#A][>][#B][>][$T][$T],#E=[$E][#X]}',
+                            kw=dict(fragment_masses={'M': 10, 'E': 2}, terminal_bonds=['$T', '$E'],
+                                    polymer_reactivities={'<': 0.3, '>': 0.4, '$T': 0.3, '$E': 0.0},
+                                    fragment_reactivities={'$T': {'$E': 1.0, '$T': 0.0}, '$E': {'$T': 1.0}}), aa=False),
     'double_bond_link': dict(frags='{#E=[$]=CC=[$],#T=[$]=C}', kw=dict(polymer_reactivities={'$2': 1.0}), aa=True),
     'cg_terminal': dict(frags='{#test=[<][#A][#B][#C][>][$A],#ter=[$B][#D]}',
                         kw=dict(fragment_masses={'test': 10, 'ter': 3}, terminal_bonds=['$A', '$B'],
                                 polymer_reactivities={'<': 0.3, '>': 0.3, '$A': 0.4, '$B': 0.0},
                                 fragment_reactivities={'$A': {'$A': 0.0, '$B': 1.0}, '$B': {'$A': 1.0, '$B': 0.0}}), aa=False),
 }
-QUICK = ['peo_linear', 'copolymer_labels', 'brush_terminal', 'cg_dextran', 'cg_terminal', 'cg_two_frags_orders', 'missing_key']
+QUICK = ['peo_linear', 'copolymer_labels', 'brush_terminal', 'cg_dextran', 'cg_terminal', 'cg_two_frags_orders', 'missing_key', 'table_with_foreign_keys', 'double_terminal']
 
 
 class NoChoice(Exception):
